@@ -75,7 +75,9 @@ CHECKS = {
    note="sin/cos uninterpreted with s^2+c^2=1 (angle addition formulas for the co-rotation lemma); doubles are reals; the Python "
         "clauses: jitter distributions (absolute width, centred on 0, clipped to the parameter's limits) adopted from the C02 contracts, "
         "orientation inactive for 1-D under C10; kernel-level |cos dtheta| weight, jitter defaults 0, view angles from the value "
-        "vector: kernel contract (cylinder Iq/Iqxy, parallelepiped Iqxy); parity of the individual models is not covered",
+        "vector: kernel contract (cylinder Iq/Iqxy, parallelepiped Iqxy); I(-q) = I(q): the particle-frame function of each of the 21 "
+        "oriented models is proved even under q -> -q (polynomial identity with the parity of the special functions given: 17 models; "
+        "the 4 with an inner quadrature in the 2-D function have a bounded numeric check, not counted)",
    technique=TECH + "clang JSON AST -> symbolic execution -> polynomial normal form / z3; witnesses replayed on the compiled generated source",
    design="DESIGN.md 6 C05"),
  "C06": dict(engine="cvc",
@@ -83,7 +85,10 @@ CHECKS = {
         "of the generated magnetic kernel source and proved equal, for all inputs, to the documented channel weights "
         "((1-i)(1-f), (1-i)f, i(1-f), if)/max(f,1-f) with clipping and to rho -/+ P.Mperp, e1.Mperp, -/+ e2.Mperp with "
         "Mperp = M - qhat(qhat.M); {P,e1,e2} orthonormal and Mperp perpendicular to q are lemmas.",
-   note="doubles are reals; sqrt(x)^2=x; convert_magnetism (2-D numpy reshaping) is a bounded run-time contract; the per-q channel "
+   note="[also: I(-rho) = I(rho), which the spin-flip term of the statement relies on, is proved per model for the function the 2-D "
+        "kernel calls (35 of 45 compiled models with sld parameters; polynomial identity with |x| and the parity of the special functions "
+        "given; the other 10 - vector slds, loops of symbolic length, slds reaching an inner quadrature - have a bounded numeric check)] "
+        "doubles are reals; sqrt(x)^2=x; convert_magnetism (2-D numpy reshaping) is a bounded run-time contract; the per-q channel "
         "loop, slot layout and kernel selection are obligations of the kernel contract (kernel_c, in progress) and C11",
    technique=TECH + "clang JSON AST -> symbolic execution -> z3 nonlinear real arithmetic; witnesses replayed on the compiled generated source",
    design="DESIGN.md 6 C06"),
